@@ -761,9 +761,9 @@ class BaseImage(metaclass=ImageMeta):
         # Checks for *repeat* and *cached* are delegated to `ImageIterator`.
 
         def render(image: PIL.Image.Image) -> None:
-            # Hide the cursor immediately if the output is a terminal device
-            sys.stdout.isatty() and print(HIDE_CURSOR, end="", flush=True)
             try:
+                # Hide the cursor immediately if the output is a terminal device
+                sys.stdout.isatty() and print(HIDE_CURSOR, end="", flush=True)
                 style_args = self._check_style_args(style)
                 if animation:
                     self._display_animated(
